@@ -602,21 +602,51 @@ def rule_x6(F):
     panics in lowering and `roto test` dies although every block accepts.)"""
     r = RuleResult("C19.X6", "every item checker (function, filter_map, constant, test) resolves the deferred obligations of its body before accepting the item", floor=4)
     n = 0
+
+    def summary(path, depth=0):
+        """(accepting exits, all resolved, body checked before the resolution) of one function.  An accepting exit is an `Ok(..)`
+        written to the return place or a call whose result is returned as it is; it is resolved when a call of resolve_obligations
+        - or of a crate helper that itself only accepts resolved - dominates it (or is that tail call)."""
+        b = F.body(path)
+        if not b or not b.mir or depth > 3:
+            return None
+        dom = mir.dominators(b)
+        res, checks = [], []          # (block, includes a body check of its own)
+        for bi, t in mir.calls(b):
+            c = mir.callee(t) or ""
+            if hir.last(c) == "resolve_obligations":
+                res.append((bi, False))
+            elif hir.last(c) in ("block", "expr") and "typechecker" in c:
+                checks.append(bi)
+            elif "typechecker" in c and c != path and F.body(c) is not None:
+                sm = summary(c, depth + 1)
+                if sm and sm["exits"] and sm["resolved"]:
+                    res.append((bi, sm["checked"]))
+        exits = [bi for bi, blk in enumerate(b.blocks) for st in blk["stmts"] if st["k"] == "assign" and st["p"] == [0] and st["rv"]["k"] == "agg" and st["rv"].get("variant") == "Ok"]
+        exits += [bi for bi, t in mir.calls(b) if t.get("dest") == [0] and "from_residual" not in (mir.callee(t) or "")]
+        exits = sorted(set(exits))
+        ok_res, ok_chk = True, True
+        for e in exits:
+            rs = [(rb, own) for rb, own in res if rb in dom[e]]
+            if not rs:
+                ok_res = False
+                continue
+            if not any(own or any(cb in dom[rb] for cb in checks) for rb, own in rs):
+                ok_chk = False
+        return {"exits": len(exits), "resolved": ok_res, "checked": ok_chk, "res": len(res), "b": b}
+
     for name in ("function", "filter_map", "constant", "test"):
         ps = [p for p in F.paths() if p.endswith("TypeChecker>::" + name) and "typechecker::function" in p]
         if not ps:
             r.missing("typechecker::function::" + name)
             continue
-        b = F.body(ps[0])
-        if not b.mir:
+        sm = summary(ps[0])
+        if not sm:
             continue
+        b = sm["b"]
         n += 1
-        dom = mir.dominators(b)
-        res = [bi for bi, t in mir.calls(b) if hir.last(mir.callee(t) or "") == "resolve_obligations"]
-        body_checks = [bi for bi, t in mir.calls(b) if hir.last(mir.callee(t) or "") in ("block", "expr") and "typechecker" in (mir.callee(t) or "")]
-        oks = [bi for bi, blk in enumerate(b.blocks) for st in blk["stmts"] if st["k"] == "assign" and st["p"] == [0] and st["rv"]["k"] == "agg" and st["rv"].get("variant") == "Ok"]
-        good = bool(oks) and all(any(rb in dom[ob] for rb in res) for ob in oks) and all(any(cb in dom[rb] for cb in body_checks) for rb in res) and bool(body_checks)
-        r.inst("item checker `%s`" % name, {"fn": b.path, "resolve_obligations_calls": len(res), "ok_exits": len(oks), "every_ok_exit_behind_it": good})
+        good = bool(sm["exits"]) and sm["resolved"] and sm["checked"]
+        r.inst("item checker `%s`" % name, {"fn": b.path, "resolving_calls": sm["res"], "accepting_exits": sm["exits"], "every_accepting_exit_behind_one": good})
         if not good:
             r.bad(b.path, "obligations of the body not resolved", relfile(b.file), b.line,
                   "the checker of `%s` items can accept the item without resolving the deferred obligations of its body (its siblings all do): the `to_string` of an f-string interpolation is "
